@@ -384,6 +384,7 @@ def cases_native(tier):
         yield "failures/all-realizations/min_success=0/constraint/%s" % method, {"sampler": "norm", "shared": False, "failing": "all", "method": method, "__concrete_only__": True}
         yield "failures/positive-weights-fail-zero-weight-survives/%s" % method, {"sampler": "norm", "shared": False, "failing": "positive", "method": method, "__concrete_only__": True}
     yield "two-samplers+filter+stddev", {"sampler": "norm", "shared": False, "rich": True, "__concrete_only__": True}
+    yield "two-samplers+filter+stddev/no-variable-bounds", {"sampler": "norm", "shared": False, "rich": True, "unbounded": True, "__concrete_only__": True}
     yield "differential_evolution", {"sampler": "norm", "shared": False, "de": True, "__concrete_only__": True}
 
 
@@ -450,6 +451,9 @@ def scn_native(T, case):
         else:
             cfg["realizations"] = {"weights": [1.0, 2.0, 0.0], "realization_min_success": 1}
     if case.get("rich"):
+        if case.get("unbounded"):
+            # no variable bounds: nothing clips or mirrors a perturbation back into range, whatever its size
+            cfg["variables"] = {"initial_values": [0.0, 0.1, 0.2]}
         cfg["samplers"] = [{"method": "norm"}, {"method": "sobol"}]
         cfg["gradient"]["samplers"] = [1, 0, 1]
         cfg["variables"]["mask"] = [True, True, False]
